@@ -64,6 +64,11 @@ pub struct Sc {
     pub initial: Option<Vec<u8>>,
     pub cycles: Vec<Cycle>,
     pub matrix_cell: u64,
+    /// the rest of the environment is busy: every variable other than UPDATE_GOLDEN reads "1" in the
+    /// simulated environment, and a list of update-style variables is set in the real one. The
+    /// statement names one variable; none of the others may switch updating on.
+    #[serde(default)]
+    pub busy_env: bool,
 }
 
 pub struct C20;
@@ -71,6 +76,7 @@ pub struct C20;
 struct GWorld {
     file: RefCell<Option<Vec<u8>>>,
     env: RefCell<Option<String>>,
+    busy_env: bool,
     read_fault: RefCell<ReadFault>,
     write_fault: RefCell<WriteFault>,
     writes: RefCell<u64>,
@@ -137,6 +143,10 @@ impl okane_golden::verif::World for GWorld {
 
     fn var(&self, key: &str) -> Result<String, std::env::VarError> {
         if key != "UPDATE_GOLDEN" {
+            if self.busy_env {
+                self.fired("other-variable-set");
+                return Ok("1".to_string());
+            }
             return Err(std::env::VarError::NotPresent);
         }
         *self.vars.borrow_mut() += 1;
@@ -316,6 +326,7 @@ impl Check for C20 {
             initial,
             cycles,
             matrix_cell: cell,
+            busy_env: rng.chance(1, 3),
         }
     }
 
@@ -429,6 +440,7 @@ fn sim_leg(sc: &Sc, out: &mut RunOut) -> bool {
         let w = Rc::new(GWorld {
             file: RefCell::new(sc.initial.clone()),
             env: RefCell::new(None),
+            busy_env: sc.busy_env,
             read_fault: RefCell::new(ReadFault::None),
             write_fault: RefCell::new(WriteFault::None),
             writes: RefCell::new(0),
@@ -719,6 +731,21 @@ fn remove_any(p: &Path) {
     }
 }
 
+const OTHER_VARS: &[&str] = &[
+    "UPDATE_EXPECT", "UPDATE_GOLDENS", "UPDATE_GOLDEN_FILES", "UPDATE_SNAPSHOTS", "UPDATE", "GOLDEN_UPDATE", "GOLDEN", "BLESS", "INSTA_UPDATE",
+    "INSTA_FORCE_PASS", "TRYBUILD", "CI", "OVERWRITE", "REGENERATE_GOLDENS", "update_golden", "Update_Golden", "UPDATE_GOLDEN_", "_UPDATE_GOLDEN",
+];
+
+fn set_real_others(on: bool) {
+    for k in OTHER_VARS {
+        if on {
+            std::env::set_var(k, "1");
+        } else {
+            std::env::remove_var(k);
+        }
+    }
+}
+
 fn set_real_env(v: &Option<String>) {
     match v {
         Some(s) => std::env::set_var("UPDATE_GOLDEN", s),
@@ -735,6 +762,10 @@ fn read_real(p: &Path) -> Option<Vec<u8>> {
 
 fn real_leg(sc: &Sc, out: &mut RunOut) {
     okane_golden::verif::set_world(None);
+    set_real_others(sc.busy_env);
+    if sc.busy_env {
+        out.count("real.other-update-variables-set");
+    }
     let root = super::c11::fresh_real_dir();
     let dir = root.join("testdata");
     let path = dir.join("golden.txt");
